@@ -34,6 +34,9 @@ Init == /\ WireInit
         /\ mode \in {"wire", "open", "sink"}
         /\ readlog = <<>> /\ base = 0 /\ seq = <<>>
 
+RECURSIVE SumN(_)
+SumN(k) == IF k = 0 THEN 0 ELSE stream[k].n + SumN(k - 1)
+
 Sizes == 1..3
 
 NextWire ==
@@ -42,6 +45,7 @@ NextWire ==
     /\ \/ \E v \in Vals, n \in Sizes : Len(stream) < MaxRecs /\ Write(<<v>>, n, total) /\ UNCHANGED readlog
        \/ \E v \in Vals, n \in Sizes, p \in 0..3 :
             /\ Len(stream) < MaxRecs /\ p <= n
+            /\ (p = n \/ total = SumN(Len(stream)))       \* at most one torn write per stream
             /\ WriteThrough(<<v>>, p = n, p, n, p, [i \in 1..p |-> i], [i \in 1..p |-> i], total)
             /\ UNCHANGED readlog
        \/ HasNext /\ Read(stream[cur].v, stream[cur].n, off, FALSE) /\ readlog' = Append(readlog, stream[cur].v)
@@ -92,9 +96,6 @@ Spec == Init /\ [][Next]_vars
 
 (* ---------------------------------------------------------------- invariants *)
 TypeInv == WireTypeOK
-
-RECURSIVE SumN(_)
-SumN(k) == IF k = 0 THEN 0 ELSE stream[k].n + SumN(k - 1)
 
 (* reads return the writes in order *)
 ReadsReturnWritesInOrder == readlog = [i \in 1..(cur - 1) |-> stream[i].v]
